@@ -58,6 +58,25 @@ func judgeName(c *Ctx, k nameCase) {
 		r.Violate("C15|NewRawSuite|panic|", "NewRawSuite panics", "name", k, "a suite or an error", panicStr(pan))
 		return
 	}
+	// the other constructor for suite strings: MustRawSuite must agree with NewRawSuite on every string - the same
+	// configuration and the same reported name where NewRawSuite succeeds, a panic (its documented refusal) where it fails
+	{
+		var ms otp.Suite
+		mpan := monCatch(func() { ms = otp.MustRawSuite(k.Name) })
+		r.Eval(1)
+		switch {
+		case err != nil && mpan == nil:
+			r.Violate("C15|MustRawSuite|accepts-what-NewRawSuite-rejects|", "MustRawSuite returns a suite for a string NewRawSuite rejects", "name", k, "a panic (documented refusal)", fmt.Sprintf("%+v", ms))
+		case err == nil && mpan != nil:
+			r.Violate("C15|MustRawSuite|rejects-what-NewRawSuite-accepts|", "MustRawSuite panics for a string NewRawSuite accepts", "name", k, "a suite", panicStr(mpan))
+		case err == nil && s != nil && ms != nil:
+			var c1, c2 otp.SuiteConfig
+			var n2 string
+			if monCatch(func() { c1, c2, n2 = s.Config(), ms.Config(), ms.String() }) == nil && (c1 != c2 || n2 != k.Name) {
+				r.Violate("C15|MustRawSuite|differs-from-NewRawSuite|", "MustRawSuite and NewRawSuite disagree on the configuration or the reported name of a suite string", "name", k, fmt.Sprintf("%+v named %q", c1, k.Name), fmt.Sprintf("%+v named %q", c2, n2))
+			}
+		}
+	}
 	switch {
 	case k.Class == "registered":
 		r.Nontrivial("r|" + k.Name)
